@@ -46,6 +46,7 @@ import (
 	"path/filepath"
 	"regexp"
 	"runtime"
+	"runtime/pprof"
 	"sort"
 	"strings"
 	"sync"
@@ -300,18 +301,24 @@ type round struct {
 	dir        string
 }
 
+// drawLen: 0...256 KiB, every boundary in play, but skewed to small values: under the race
+// detector every fresh large allocation (bytes.Buffer growth inside the cache) costs
+// milliseconds of shadow-memory page faults that serialise the whole process, which would
+// leave no budget for interleavings. Large values stay in (about 1 in 25 writers).
 func drawLen(rng *prng.R) int {
 	switch x := rng.Intn(100); {
 	case x < 5:
 		return 0
 	case x < 10:
 		return rng.Range(1, hdrLen-1)
-	case x < 14:
-		return rng.Pick(hdrLen, hdrLen+1, 4095, 4096, 4097, 65536, maxLen-1, maxLen)
+	case x < 13:
+		return rng.Pick(hdrLen, hdrLen+1, 4095, 4096, 4097, 50000, 65536, maxLen-1, maxLen)
 	case x < 60:
-		return rng.Range(hdrLen, 4096)
+		return rng.Range(hdrLen, 1024)
 	case x < 90:
-		return rng.Range(4097, 64<<10)
+		return rng.Range(1025, 8192)
+	case x < 98:
+		return rng.Range(8193, 64<<10)
 	default:
 		return rng.Range(64<<10, maxLen)
 	}
@@ -890,12 +897,12 @@ func (g *gstate) doRead(o *op) {
 	}
 
 	if o.hold {
-		if len(g.held) >= 3 {
-			g.rereadOldest()
-		}
 		h := heldReader{rd: r, key: o.key, wid: v.wid, n: n, src: src, getRet: getRet}
 		if v.wid < 0 {
-			h.short = append([]byte(nil), full...)
+			h.short = append([]byte(nil), full...) // before g.full is reused below
+		}
+		if len(g.held) >= 3 {
+			g.rereadOldest()
 		}
 		g.held = append(g.held, h)
 		g.cnt[cHeld]++
@@ -970,6 +977,10 @@ func countWip(dir string) int {
 
 func runRound(r *vf.Run, rd *round, bufs [][]byte) (goOn bool) {
 	r.Eval(1)
+	tStart := time.Now()
+	defer func() {
+		r.Count(fmt.Sprintf("wall_ms[%s direct=%v syncAdd=%v fadv=%v]", rd.cfg.Kind, rd.cfg.Direct, rd.cfg.SyncAdd, rd.cfg.Fadv), int(time.Since(tStart).Milliseconds()))
+	}()
 	root := filepath.Join(r.Scratch, fmt.Sprintf("round-%d", rd.idx))
 	c, dir, ev, err := newCache(rd.cfg, root)
 	if err != nil {
@@ -1108,7 +1119,16 @@ func sampleOps(rd *round, g, n int) []string {
 
 func body(r *vf.Run) {
 	configs := allConfigs()
+	if pf := os.Getenv("C11_PROF"); pf != "" {
+		f, _ := os.Create(pf)
+		pprof.StartCPUProfile(f)
+		defer pprof.StopCPUProfile()
+		configs = configs[16:]
+	}
 	n := r.N(17*8, 17*110)
+	if os.Getenv("C11_PROF") != "" {
+		n = 6
+	}
 	bufs := make([][]byte, 32)
 	for i := range bufs {
 		bufs[i] = make([]byte, 2*maxLen+readCap+2*65536)
